@@ -14,12 +14,22 @@
        (C05_integer_field_canonical);
      - leaves: all ten integer types and BOOLEAN re-encode to the accepted
        content; Integer, Unsigned, OID, BIT STRING keep it verbatim.
-   PARTIAL: as for C04, no single theorem over a schema datatype; restricted
-   strings and captured values by streams (c05.leaf, c05.lengths, records). *)
+     - records: for EVERY schema (tree of SEQUENCE/SET/explicitly tagged
+       records over INTEGER/BOOLEAN/NULL leaves, any legal tags, any nesting)
+       whatever the schema's typed readers accept in DER mode - at any
+       position, under any limit - is exactly the DER encoding of the value
+       they return (C05_schema_sound_in_context); for a whole input the
+       consumed octets are that encoding (C05_schema_der_canonical), two
+       inputs decoding to the same value are equal (C05_schema_der_injective),
+       and the re-encoding reads back as the same value
+       (C05_schema_der_reencode).
+   PARTIAL: OPTIONAL/CHOICE fields and string/OID leaves are not in the schema
+   datatype (leaf theorems above); restricted strings and captured values by
+   streams (c05.leaf, c05.lengths, records). *)
 Require Import BV.Model.Base BV.Model.SrcB BV.Model.Twos BV.Model.Int BV.Model.BitStr BV.Model.Oid.
 Require Import BV.Model.Length BV.Model.Tag BV.Model.Content BV.Model.Encode.
 Require Import BV.Proofs.SrcBP BV.Proofs.IntP BV.Proofs.IntEncP BV.Proofs.BitStrP BV.Proofs.OidP BV.Proofs.ContentP BV.Proofs.WinP
-               BV.Proofs.TotalP BV.Proofs.DeltaP BV.Proofs.GrammarP BV.Proofs.EncGrammarP BV.Proofs.TypedP.
+               BV.Proofs.TotalP BV.Proofs.DeltaP BV.Proofs.GrammarP BV.Proofs.EncGrammarP BV.Proofs.TypedP BV.Proofs.SchemaP BV.Proofs.SchemaSoundP.
 
 Theorem C05_der_encoding_unique :
   (forall t d, GrammarP.enc Der t d -> forall d', GrammarP.enc Der t d' -> d = d') /\
@@ -74,6 +84,45 @@ Theorem C05_oid_verbatim : forall c, octets_ok c = true ->
   prim_decode oid_from_prim c = if oid_ok c then Ok c else CErr.
 Proof. exact oid_from_prim_spec. Qed.
 
+(* records of records of typed fields *)
+Theorem C05_schema_sound_in_context : forall s fuel c src v c' src',
+  schema_ok s -> kinds_ok s -> nf src -> octets_ok (rem src) = true -> cmd c = Der ->
+  dec_s fuel s c src = (Ok (v, c'), src') ->
+  nf src' /\ c' = c /\ exists e d, enc_s s v = Some e /\ enc_write Der e = Ok d /\
+    rem src = d ++ rem src' /\ consumed src src' (len d).
+Proof. exact schema_sound. Qed.
+
+Theorem C05_schema_der_canonical : forall s v d s1,
+  schema_ok s -> kinds_ok s -> octets_ok d = true ->
+  decode_src Der (dec_s (sdepth s) s) (pure_src d None) = (Ok v, s1) ->
+  exists e d0, enc_s s v = Some e /\ enc_write Der e = Ok d0 /\ d = d0 ++ rem s1.
+Proof. exact schema_der_canonical. Qed.
+
+Theorem C05_schema_der_injective : forall s v d1 d2,
+  schema_ok s -> kinds_ok s -> octets_ok d1 = true -> octets_ok d2 = true ->
+  decode_src Der (dec_s (sdepth s) s) (pure_src d1 None) = (Ok v, pure_src [] None) ->
+  decode_src Der (dec_s (sdepth s) s) (pure_src d2 None) = (Ok v, pure_src [] None) ->
+  d1 = d2.
+Proof. exact schema_der_injective. Qed.
+
+Theorem C05_schema_der_reencode : forall s v d s1,
+  schema_ok s -> kinds_ok s -> octets_ok d = true ->
+  decode_src Der (dec_s (sdepth s) s) (pure_src d None) = (Ok v, s1) ->
+  exists e d0, enc_s s v = Some e /\ enc_write Der e = Ok d0 /\ d = d0 ++ rem s1 /\
+    decode_src Der (dec_s (sdepth s) s) (pure_src d0 None) = (Ok v, pure_src [] None).
+Proof. exact schema_der_reencode. Qed.
+
+Example C05_schema_ex :
+  let s := SSeq T_SEQUENCE [SLeaf T_INTEGER (LInt 2); SSeq T_SET [SLeaf T_BOOLEAN LBool; SLeaf T_NULL LNull]] in
+  schema_ok s /\ kinds_ok s /\
+  decode_src Der (dec_s (sdepth s) s) (pure_src [48; 11; 2; 2; 254; 212; 49; 5; 1; 1; 255; 5; 0] None)
+  = (Ok (VSeq [VInt (-300); VSeq [VBool true; VNull]]), pure_src [] None).
+Proof. exact schema_sound_example. Qed.
+
+Print Assumptions C05_schema_sound_in_context.
+Print Assumptions C05_schema_der_canonical.
+Print Assumptions C05_schema_der_injective.
+Print Assumptions C05_schema_der_reencode.
 Print Assumptions C05_der_encoding_unique.
 Print Assumptions C05_der_reader_injective.
 Print Assumptions C05_der_reencode_identity.
